@@ -1,926 +1,11 @@
-//! Group `arith`: C01 (add/sub/neg), C02 (mul), C03 (div), C10 (modular), C13 (pow/log/root).
-#![allow(clippy::all)]
-
-use num_bigint::BigUint;
-use num_integer::Integer;
-use num_traits::{One, Zero};
-use ruint::Uint;
-use vharness::*;
-
-define_ops! {
-    // ---- C01
-    overflowing_add = |a: U, b: U| a.overflowing_add(b);
-    checked_add = |a: U, b: U| a.checked_add(b);
-    saturating_add = |a: U, b: U| a.saturating_add(b);
-    wrapping_add = |a: U, b: U| a.wrapping_add(b);
-    overflowing_sub = |a: U, b: U| a.overflowing_sub(b);
-    checked_sub = |a: U, b: U| a.checked_sub(b);
-    saturating_sub = |a: U, b: U| a.saturating_sub(b);
-    wrapping_sub = |a: U, b: U| a.wrapping_sub(b);
-    abs_diff = |a: U, b: U| a.abs_diff(b);
-    overflowing_neg = |a: U| a.overflowing_neg();
-    checked_neg = |a: U| a.checked_neg();
-    wrapping_neg = |a: U| a.wrapping_neg();
-    neg_v = |a: U| -a;
-    neg_r = |a: U| -&a;
-    add_vv = |a: U, b: U| a + b;
-    add_vr = |a: U, b: U| a + &b;
-    add_rv = |a: U, b: U| &a + b;
-    add_rr = |a: U, b: U| &a + &b;
-    add_assign_v = |a: U, b: U| { a += b; a };
-    add_assign_r = |a: U, b: U| { a += &b; a };
-    sub_vv = |a: U, b: U| a - b;
-    sub_vr = |a: U, b: U| a - &b;
-    sub_rv = |a: U, b: U| &a - b;
-    sub_rr = |a: U, b: U| &a - &b;
-    sub_assign_v = |a: U, b: U| { a -= b; a };
-    sub_assign_r = |a: U, b: U| { a -= &b; a };
-    sum_v = |s: US| s.iter().copied().sum::<Uint<B, L>>();
-    sum_r = |s: US| s.iter().sum::<Uint<B, L>>();
-    // ---- C02
-    overflowing_mul = |a: U, b: U| a.overflowing_mul(b);
-    checked_mul = |a: U, b: U| a.checked_mul(b);
-    saturating_mul = |a: U, b: U| a.saturating_mul(b);
-    wrapping_mul = |a: U, b: U| a.wrapping_mul(b);
-    mul_vv = |a: U, b: U| a * b;
-    mul_vr = |a: U, b: U| a * &b;
-    mul_rv = |a: U, b: U| &a * b;
-    mul_rr = |a: U, b: U| &a * &b;
-    mul_assign_v = |a: U, b: U| { a *= b; a };
-    mul_assign_r = |a: U, b: U| { a *= &b; a };
-    inv_ring = |a: U| a.inv_ring();
-    product_v = |s: US| s.iter().copied().product::<Uint<B, L>>();
-    product_r = |s: US| s.iter().product::<Uint<B, L>>();
-    // ---- C03
-    div_rem = |a: U, b: U| a.div_rem(b);
-    div_vv = |a: U, b: U| a / b;
-    div_vr = |a: U, b: U| a / &b;
-    div_rv = |a: U, b: U| &a / b;
-    div_rr = |a: U, b: U| &a / &b;
-    div_assign_v = |a: U, b: U| { a /= b; a };
-    div_assign_r = |a: U, b: U| { a /= &b; a };
-    rem_vv = |a: U, b: U| a % b;
-    rem_vr = |a: U, b: U| a % &b;
-    rem_rv = |a: U, b: U| &a % b;
-    rem_rr = |a: U, b: U| &a % &b;
-    rem_assign_v = |a: U, b: U| { a %= b; a };
-    rem_assign_r = |a: U, b: U| { a %= &b; a };
-    wrapping_div = |a: U, b: U| a.wrapping_div(b);
-    wrapping_rem = |a: U, b: U| a.wrapping_rem(b);
-    checked_div = |a: U, b: U| a.checked_div(b);
-    checked_rem = |a: U, b: U| a.checked_rem(b);
-    div_ceil = |a: U, b: U| a.div_ceil(b);
-    next_multiple_of = |a: U, b: U| a.next_multiple_of(b);
-    checked_next_multiple_of = |a: U, b: U| a.checked_next_multiple_of(b);
-    // ---- C10
-    reduce_mod = |a: U, m: U| a.reduce_mod(m);
-    add_mod = |a: U, b: U, m: U| a.add_mod(b, m);
-    mul_mod = |a: U, b: U, m: U| a.mul_mod(b, m);
-    pow_mod = |a: U, e: U, m: U| a.pow_mod(e, m);
-    inv_mod = |a: U, m: U| a.inv_mod(m);
-    // ---- C13
-    pow = |a: U, e: U| a.pow(e);
-    wrapping_pow = |a: U, e: U| a.wrapping_pow(e);
-    overflowing_pow = |a: U, e: U| a.overflowing_pow(e);
-    checked_pow = |a: U, e: U| a.checked_pow(e);
-    saturating_pow = |a: U, e: U| a.saturating_pow(e);
-    log = |a: U, b: U| a.log(b);
-    log2 = |a: U| a.log2();
-    log10 = |a: U| a.log10();
-    checked_log = |a: U, b: U| a.checked_log(b);
-    checked_log2 = |a: U| a.checked_log2();
-    checked_log10 = |a: U| a.checked_log10();
-    root = |a: U, d: N| a.root(d);
-}
-
-dispatch_widths!(dispatch, call, Op;
-    0, 1, 2, 3, 4, 5, 6, 7, 8, 9, 10, 11, 12, 16,
+//! Group `arith` at the standard width grid (body: src/groups/arith.rs).
+#![allow(clippy::all, dead_code, unused)]
+macro_rules! width_list {
+    () => {
+        dispatch_widths!(dispatch, call, Op;
+            0, 1, 2, 3, 4, 5, 6, 7, 8, 9, 10, 11, 12, 16,
     60, 63, 64, 65, 120, 127, 128, 129, 191, 192, 193, 250, 255, 256, 257, 320, 384, 511, 512, 513, 1024);
-
-const W_EDGE_QUICK: &[usize] = &[63, 64, 65, 127, 128, 129, 192, 256, 257];
-const W_EDGE: &[usize] = &[60, 63, 64, 65, 120, 127, 128, 129, 191, 192, 193, 250, 255, 256, 257, 320, 384, 511, 512, 513];
-
-fn u(v: &BigUint, bits: usize) -> V {
-    V::U(to_limbs(v, bits))
-}
-fn wrap(v: &BigUint, bits: usize) -> V {
-    V::U(to_limbs(&(v % pow2(bits)), bits))
-}
-fn maxv(bits: usize) -> V {
-    V::U(max_limbs(bits))
-}
-
-/// a^e compared with 2^bits without forming huge numbers: returns (a^e mod 2^bits, a^e >= 2^bits).
-fn pow_model(a: &BigUint, e: &BigUint, bits: usize) -> (BigUint, bool) {
-    let m = pow2(bits);
-    if bits == 0 {
-        return (BigUint::zero(), false);
-    }
-    let val = a.modpow(e, &m);
-    let ovf = if a.is_zero() || a.is_one() || e.is_zero() {
-        false
-    } else if e.bits() > 32 || (a.bits() - 1) * e.iter_u64_digits().next().unwrap_or(0) >= bits as u64 {
-        true // a >= 2, so a^e >= 2^((bitlen-1)*e) >= 2^bits
-    } else {
-        // a^e < 2^(bitlen*e) and (bitlen-1)*e < bits: at most ~2*bits+e bits, cheap to form
-        let ex = e.iter_u32_digits().next().unwrap_or(0);
-        a.pow(ex) >= m
     };
-    (val, ovf)
 }
-
-/// floor(log_b(v)) by repeated multiplication, v >= 1, b >= 2.
-fn log_model(v: &BigUint, b: &BigUint) -> u128 {
-    let mut k = 0u128;
-    let mut p = b.clone();
-    while &p <= v {
-        p *= b;
-        k += 1;
-    }
-    k
-}
-
-/// compare r^d with v without forming numbers much larger than v
-fn pow_le(r: &BigUint, d: usize, v: &BigUint) -> bool {
-    // returns r^d <= v
-    if r.is_zero() {
-        return true;
-    }
-    if r.is_one() {
-        return v >= &BigUint::one();
-    }
-    if (r.bits() - 1) as u128 * d as u128 >= v.bits() as u128 {
-        return false; // r^d >= 2^((bitlen-1)*d) >= 2^bits(v) > v
-    }
-    let mut p = BigUint::one();
-    for _ in 0..d {
-        p *= r;
-        if &p > v {
-            return false;
-        }
-    }
-    true
-}
-fn root_model(v: &BigUint, d: usize) -> BigUint {
-    // floor(v^(1/d)) by bisection on integers
-    if v.is_zero() {
-        return BigUint::zero();
-    }
-    let mut lo = BigUint::one(); // lo^d <= v
-    let mut hi = pow2((v.bits() as usize + d - 1) / d + 1); // hi^d > v
-    while &hi - &lo > BigUint::one() {
-        let mid = (&lo + &hi) >> 1;
-        if pow_le(&mid, d, v) {
-            lo = mid;
-        } else {
-            hi = mid;
-        }
-    }
-    lo
-}
-
-fn carries(a: &[u64], b: &[u64]) -> bool {
-    // does a carry (or borrow) cross a limb boundary in a+b or a-b?
-    let mut c = false;
-    let mut bo = false;
-    let mut any = false;
-    for i in 0..a.len() {
-        let (s, c1) = a[i].overflowing_add(b[i]);
-        let (_, c2) = s.overflowing_add(c as u64);
-        c = c1 | c2;
-        let (d, b1) = a[i].overflowing_sub(b[i]);
-        let (_, b2) = d.overflowing_sub(bo as u64);
-        bo = b1 | b2;
-        if i + 1 < a.len() {
-            any |= c | bo;
-        }
-    }
-    any
-}
-
-fn model(bits: usize, op: Op, args: &[V]) -> Expect {
-    use Op::*;
-    let m = pow2(bits);
-    let a = || big(args[0].limbs());
-    let b = || big(args[1].limbs());
-    let c = || big(args[2].limbs());
-    match op {
-        overflowing_add | checked_add | saturating_add | wrapping_add | add_vv | add_vr | add_rv | add_rr | add_assign_v | add_assign_r => {
-            let s = a() + b();
-            let o = s >= m;
-            let nt = o || carries(args[0].limbs(), args[1].limbs());
-            match op {
-                overflowing_add => is(V::T(vec![wrap(&s, bits), V::B(o)])),
-                checked_add => is(if o { V::None } else { V::some(u(&s, bits)) }),
-                saturating_add => is(if o { maxv(bits) } else { u(&s, bits) }),
-                _ => is(wrap(&s, bits)),
-            }
-            .nt(nt)
-        }
-        overflowing_sub | checked_sub | saturating_sub | wrapping_sub | abs_diff | sub_vv | sub_vr | sub_rv | sub_rr | sub_assign_v | sub_assign_r => {
-            let (a, b) = (a(), b());
-            let o = a < b;
-            let d = if o { &m + &a - &b } else { &a - &b };
-            let nt = o || carries(args[0].limbs(), args[1].limbs());
-            match op {
-                overflowing_sub => is(V::T(vec![u(&d, bits), V::B(o)])),
-                checked_sub => is(if o { V::None } else { V::some(u(&d, bits)) }),
-                saturating_sub => is(if o { u(&BigUint::zero(), bits) } else { u(&d, bits) }),
-                abs_diff => is(u(&if o { &b - &a } else { &a - &b }, bits)),
-                _ => is(u(&d, bits)),
-            }
-            .nt(nt)
-        }
-        overflowing_neg | checked_neg | wrapping_neg | neg_v | neg_r => {
-            let a = a();
-            let o = !a.is_zero();
-            let d = if o { &m - &a } else { BigUint::zero() };
-            match op {
-                overflowing_neg => is(V::T(vec![u(&d, bits), V::B(o)])),
-                checked_neg => is(if o { V::None } else { V::some(u(&d, bits)) }),
-                _ => is(u(&d, bits)),
-            }
-            .nt(o)
-        }
-        sum_v | sum_r => {
-            let mut s = BigUint::zero();
-            for x in args[0].as_l() {
-                s += big(x.limbs());
-            }
-            is(wrap(&s, bits)).nt(s >= m)
-        }
-        overflowing_mul | checked_mul | saturating_mul | wrapping_mul | mul_vv | mul_vr | mul_rv | mul_rr | mul_assign_v | mul_assign_r => {
-            let p = a() * b();
-            let o = p >= m;
-            let zl = |l: &[u64]| l.iter().any(|x| *x == 0) && l.iter().any(|x| *x != 0);
-            let nt = o || zl(args[0].limbs()) || zl(args[1].limbs());
-            match op {
-                overflowing_mul => is(V::T(vec![wrap(&p, bits), V::B(o)])),
-                checked_mul => is(if o { V::None } else { V::some(u(&p, bits)) }),
-                saturating_mul => is(if o { maxv(bits) } else { u(&p, bits) }),
-                _ => is(wrap(&p, bits)),
-            }
-            .nt(nt)
-        }
-        inv_ring => {
-            let a = a();
-            if bits > 0 && a.bit(0) {
-                let inv = a.modinv(&m).expect("harness: odd value has an inverse");
-                is(V::some(u(&inv, bits))).nt(true)
-            } else {
-                is(V::None)
-            }
-        }
-        product_v | product_r => {
-            let mut s = BigUint::one();
-            for x in args[0].as_l() {
-                s *= big(x.limbs());
-            }
-            is(wrap(&s, bits)).nt(s >= m)
-        }
-        div_rem | div_vv | div_vr | div_rv | div_rr | div_assign_v | div_assign_r | rem_vv | rem_vr | rem_rv | rem_rr | rem_assign_v | rem_assign_r | wrapping_div | wrapping_rem | checked_div
-        | checked_rem | div_ceil | next_multiple_of | checked_next_multiple_of => {
-            let (n, d) = (a(), b());
-            if d.is_zero() {
-                return match op {
-                    checked_div | checked_rem | checked_next_multiple_of => is(V::None),
-                    _ => is(V::Panic),
-                }
-                .nt(true);
-            }
-            let (q, r) = n.div_rem(&d);
-            let dl = args[1].limbs();
-            let dlen = dl.iter().rposition(|x| *x != 0).map_or(0, |i| i + 1);
-            let nt = n < d || (dlen >= 3 && dl[dlen - 1] < (1 << 63)) || (dlen >= 2 && !r.is_zero());
-            match op {
-                div_rem => is(V::T(vec![u(&q, bits), u(&r, bits)])),
-                div_vv | div_vr | div_rv | div_rr | div_assign_v | div_assign_r | wrapping_div => is(u(&q, bits)),
-                rem_vv | rem_vr | rem_rv | rem_rr | rem_assign_v | rem_assign_r | wrapping_rem => is(u(&r, bits)),
-                checked_div => is(V::some(u(&q, bits))),
-                checked_rem => is(V::some(u(&r, bits))),
-                div_ceil => is(u(&if r.is_zero() { q } else { q + 1u32 }, bits)),
-                next_multiple_of | checked_next_multiple_of => {
-                    let c = if r.is_zero() { q } else { q + 1u32 };
-                    let nm = c * &d;
-                    if nm < m {
-                        is(if op == next_multiple_of { u(&nm, bits) } else { V::some(u(&nm, bits)) })
-                    } else {
-                        is(if op == next_multiple_of { V::Panic } else { V::None })
-                    }
-                }
-                _ => unreachable!(),
-            }
-            .nt(nt)
-        }
-        reduce_mod => {
-            let (a, md) = (a(), b());
-            is(u(&if md.is_zero() { BigUint::zero() } else { &a % &md }, bits)).nt(a >= md)
-        }
-        add_mod | mul_mod | pow_mod => {
-            let (a, b, md) = (a(), b(), c());
-            if md.is_zero() {
-                return is(u(&BigUint::zero(), bits)).nt(true);
-            }
-            let (r, nt) = match op {
-                add_mod => ((&a + &b) % &md, &a + &b >= m || a >= md || b >= md),
-                mul_mod => ((&a * &b) % &md, &a * &b >= m || a >= md || b >= md),
-                _ => (a.modpow(&b, &md), a >= md || b.bits() > 1),
-            };
-            is(u(&r, bits)).nt(nt)
-        }
-        inv_mod => {
-            let (a, md) = (a(), b());
-            if md >= BigUint::from(2u32) && a.gcd(&md).is_one() {
-                is(V::some(u(&a.modinv(&md).expect("harness: coprime has inverse"), bits))).nt(true)
-            } else {
-                is(V::None)
-            }
-        }
-        pow | wrapping_pow | overflowing_pow | checked_pow | saturating_pow => {
-            let (a, e) = (a(), b());
-            let (val, o) = pow_model(&a, &e, bits);
-            if bits == 0 {
-                // 0^0 at zero width: the value can only be 0; no claim on the flag
-                return match op {
-                    pow | wrapping_pow | saturating_pow => is(u(&val, bits)),
-                    _ => dont_care(),
-                };
-            }
-            match op {
-                overflowing_pow => is(V::T(vec![u(&val, bits), V::B(o)])),
-                checked_pow => is(if o { V::None } else { V::some(u(&val, bits)) }),
-                saturating_pow => is(if o { maxv(bits) } else { u(&val, bits) }),
-                _ => is(u(&val, bits)),
-            }
-            .nt(o || e.bits() > 1)
-        }
-        log | checked_log => {
-            let (v, b) = (a(), b());
-            let bad = v.is_zero() || b < BigUint::from(2u32);
-            if bad {
-                is(if op == log { V::Panic } else { V::None })
-            } else {
-                let k = log_model(&v, &b);
-                is(if op == log { V::N(k) } else { V::some(V::N(k)) }).nt(k > 0)
-            }
-        }
-        log2 | log10 | checked_log2 | checked_log10 => {
-            let v = a();
-            let checked = matches!(op, checked_log2 | checked_log10);
-            if v.is_zero() {
-                is(if checked { V::None } else { V::Panic })
-            } else {
-                let b = BigUint::from(if matches!(op, log2 | checked_log2) { 2u32 } else { 10u32 });
-                let k = log_model(&v, &b);
-                is(if checked { V::some(V::N(k)) } else { V::N(k) }).nt(k > 0)
-            }
-        }
-        root => {
-            let v = a();
-            let d = args[1].as_n() as usize;
-            if d == 0 {
-                return is(V::Panic);
-            }
-            let r = root_model(&v, d);
-            is(u(&r, bits)).nt(d >= 2 && r > BigUint::one())
-        }
-    }
-}
-
-group_glue!();
-
-fn vu(l: &Limbs) -> V {
-    V::U(l.clone())
-}
-
-/// Enumerate all pairs of `ua x ub` and run `ops` on each.
-fn pairs(r: &Runner, name: &str, bits: usize, ua: &[Limbs], ub: &[Limbs], ops: &[Op]) {
-    r.universe(name, bits, ua.len(), |i, l| {
-        let a = vu(&ua[i]);
-        for bb in ub {
-            let args = [a.clone(), vu(bb)];
-            l.states(1);
-            for &op in ops {
-                exec(l, bits, op, &args);
-            }
-        }
-    });
-}
-fn unary(r: &Runner, name: &str, bits: usize, ua: &[Limbs], ops: &[Op]) {
-    r.universe(name, bits, ua.len(), |i, l| {
-        let args = [vu(&ua[i])];
-        l.states(1);
-        for &op in ops {
-            exec(l, bits, op, &args);
-        }
-    });
-}
-fn triples(r: &Runner, name: &str, bits: usize, ua: &[Limbs], ub: &[Limbs], uc: &[Limbs], ops: &[Op]) {
-    r.universe(name, bits, ua.len() * ub.len(), |i, l| {
-        let a = vu(&ua[i / ub.len()]);
-        let b = vu(&ub[i % ub.len()]);
-        for cc in uc {
-            let args = [a.clone(), b.clone(), vu(cc)];
-            l.states(1);
-            for &op in ops {
-                exec(l, bits, op, &args);
-            }
-        }
-    });
-}
-
-/// Universe for binary operations at a wide width: as large an alphabet product as the tier allows.
-fn bin_universe(r: &Runner, bits: usize) -> (Vec<Limbs>, String) {
-    let n = nlimbs(bits);
-    let s = salt(r.seed);
-    let (al, extra): (&[u64], &[u64]) = if r.is_thorough() {
-        match n {
-            0..=3 => (A8, &s[..]),
-            4 => (A8, &[]),
-            5 => (A5, &[]),
-            _ => (A3, &[]),
-        }
-    } else {
-        match n {
-            0..=2 => (A8, &s[..]),
-            3 => (A5, &s[..1]),
-            4 => (A4, &[]),
-            _ => (A3, &[]),
-        }
-    };
-    let (mut v, desc) = wide(bits, al, true, extra);
-    // keep the pair product enumerable: cap the universe size per tier by dropping to a smaller alphabet
-    let cap = if r.is_thorough() { 4200 } else { 1300 };
-    if v.len() > cap {
-        let (v2, d2) = wide(bits, if n >= 5 { A3 } else { A4 }, true, &[]);
-        if v2.len() < v.len() {
-            return (v2, d2);
-        }
-    }
-    if v.len() > cap {
-        let (v2, d2) = wide(bits, &[0, u64::MAX], true, &[]);
-        v = v2;
-        return (v, d2);
-    }
-    (v, desc)
-}
-
-fn small_max(r: &Runner, quick: usize, thorough: usize) -> usize {
-    if r.is_thorough() {
-        thorough
-    } else {
-        quick
-    }
-}
-fn edge_widths(r: &Runner) -> Vec<usize> {
-    let mut w = if r.is_thorough() { W_EDGE.to_vec() } else { W_EDGE_QUICK.to_vec() };
-    if r.is_thorough() {
-        w.push(1024);
-    }
-    w
-}
-
-const C01_BIN: &[Op] = &[
-    Op::overflowing_add, Op::checked_add, Op::saturating_add, Op::wrapping_add, Op::overflowing_sub, Op::checked_sub, Op::saturating_sub,
-    Op::wrapping_sub, Op::abs_diff, Op::add_vv, Op::add_vr, Op::add_rv, Op::add_rr, Op::add_assign_v, Op::add_assign_r, Op::sub_vv, Op::sub_vr,
-    Op::sub_rv, Op::sub_rr, Op::sub_assign_v, Op::sub_assign_r,
-];
-const C01_UN: &[Op] = &[Op::overflowing_neg, Op::checked_neg, Op::wrapping_neg, Op::neg_v, Op::neg_r];
-const C02_BIN: &[Op] = &[
-    Op::overflowing_mul, Op::checked_mul, Op::saturating_mul, Op::wrapping_mul, Op::mul_vv, Op::mul_vr, Op::mul_rv, Op::mul_rr, Op::mul_assign_v,
-    Op::mul_assign_r,
-];
-const C03_BIN: &[Op] = &[
-    Op::div_rem, Op::div_vv, Op::div_vr, Op::div_rv, Op::div_rr, Op::div_assign_v, Op::div_assign_r, Op::rem_vv, Op::rem_vr, Op::rem_rv,
-    Op::rem_rr, Op::rem_assign_v, Op::rem_assign_r, Op::wrapping_div, Op::wrapping_rem, Op::checked_div, Op::checked_rem, Op::div_ceil,
-    Op::next_multiple_of, Op::checked_next_multiple_of,
-];
-// in the big derived universes only the distinct code paths are run
-const C03_CORE: &[Op] = &[Op::div_rem, Op::div_ceil, Op::checked_next_multiple_of, Op::rem_assign_r, Op::div_rv];
-
-/// all sequences of length 0..=3 over `vals`
-fn seqs(vals: &[Limbs], maxlen: usize) -> Vec<V> {
-    let mut out = vec![V::L(vec![])];
-    let mut cur: Vec<Vec<V>> = vec![vec![]];
-    for _ in 0..maxlen {
-        let mut nx = vec![];
-        for s in &cur {
-            for v in vals {
-                let mut t = s.clone();
-                t.push(vu(v));
-                nx.push(t);
-            }
-        }
-        out.extend(nx.iter().cloned().map(V::L));
-        cur = nx;
-    }
-    out
-}
-fn run_seqs(r: &Runner, name: &str, bits: usize, vals: &[Limbs], ops: &[Op]) {
-    let s = seqs(vals, 3);
-    r.universe(name, bits, s.len(), |i, l| {
-        let args = [s[i].clone()];
-        l.states(1);
-        for &op in ops {
-            exec(l, bits, op, &args);
-        }
-    });
-}
-
-fn c01(r: &Runner) {
-    r.set_rule("cases = (width, entry point, operand tuple); universes: S(B)^2 = all pairs of all 2^B values for every B <= Smax; L/R/P(B)^2 = all pairs over the limb-alphabet product united with run-shaped and 2^k+-1 values at each edge width; all sequences of length 0..3 for sums. non-trivial = a carry or borrow crosses a limb boundary or the overflow flag is set");
-    for bits in 0..=small_max(r, 8, 10) {
-        let u = small_all(bits);
-        pairs(r, &format!("S({bits})^2"), bits, &u, &u, C01_BIN);
-        unary(r, &format!("S({bits})"), bits, &u, C01_UN);
-    }
-    for bits in [11usize, 12, 16] {
-        let u = small_all(bits);
-        unary(r, &format!("S({bits})"), bits, &u, C01_UN);
-    }
-    for bits in edge_widths(r) {
-        let (u, d) = bin_universe(r, bits);
-        pairs(r, &format!("({d})^2"), bits, &u, &u, C01_BIN);
-        unary(r, &d, bits, &u, C01_UN);
-    }
-    for bits in 0..=4usize {
-        let u = small_all(bits);
-        if u.len() <= 8 || r.is_thorough() {
-            run_seqs(r, &format!("S({bits})^(0..3) sums"), bits, &u, &[Op::sum_v, Op::sum_r]);
-        }
-    }
-    for bits in [64usize, 65, 128, 129] {
-        let u = limb_product(bits, A3).unwrap();
-        run_seqs(r, &format!("L({bits};A3)^(0..3) sums"), bits, &u, &[Op::sum_v, Op::sum_r]);
-    }
-}
-
-fn c02(r: &Runner) {
-    r.set_rule("universes as C01 (all pairs); inv_ring on every value of S(B), B <= 16, and of the wide universes; products of all sequences of length 0..3; widening_mul on the (BITS, BITS_RHS) grid. non-trivial = the product has bits at or above 2^BITS, or an operand has a zero limb next to a non-zero limb (trimming / early-exit paths of the kernel)");
-    for bits in 0..=small_max(r, 8, 10) {
-        let u = small_all(bits);
-        pairs(r, &format!("S({bits})^2"), bits, &u, &u, C02_BIN);
-    }
-    for bits in [0usize, 1, 2, 3, 4, 5, 6, 7, 8, 9, 10, 11, 12, 16] {
-        let u = small_all(bits);
-        unary(r, &format!("S({bits})"), bits, &u, &[Op::inv_ring]);
-    }
-    for bits in edge_widths(r) {
-        let (u, d) = bin_universe(r, bits);
-        pairs(r, &format!("({d})^2"), bits, &u, &u, C02_BIN);
-        unary(r, &d, bits, &u, &[Op::inv_ring]);
-    }
-    for bits in 0..=4usize {
-        let u = small_all(bits);
-        if u.len() <= 8 || r.is_thorough() {
-            run_seqs(r, &format!("S({bits})^(0..3) products"), bits, &u, &[Op::product_v, Op::product_r]);
-        }
-    }
-    for bits in [64usize, 65, 128, 129] {
-        let u = limb_product(bits, A3).unwrap();
-        run_seqs(r, &format!("L({bits};A3)^(0..3) products"), bits, &u, &[Op::product_v, Op::product_r]);
-    }
-    widening(r);
-}
-
-// widening_mul needs four const parameters: its own shim and grid.
-fn wm<const B1: usize, const L1: usize, const B2: usize, const L2: usize, const B3: usize, const L3: usize>(r: &Runner) {
-    let ua = if B1 <= 8 { small_all(B1) } else { wide(B1, A5, true, &[]).0 };
-    let ub = if B2 <= 8 { small_all(B2) } else { wide(B2, A5, true, &[]).0 };
-    let name = format!("widening_mul {B1}x{B2}");
-    r.universe(&name, B1, ua.len(), |i, l| {
-        for bb in &ub {
-            let args = [vu(&ua[i]), vu(bb)];
-            l.states(1);
-            let got = l.guard("widening_mul", "|a: Uint<B1,L1>, b: Uint<B2,L2>| a.widening_mul::<B2, L2, B3, L3>(b)", B1, &args, || {
-                let a: Uint<B1, L1> = FromV::<B1, L1>::from_v(&args[0]);
-                let b: Uint<B2, L2> = FromV::<B2, L2>::from_v(&args[1]);
-                a.widening_mul::<B2, L2, B3, L3>(b).into_v()
-            });
-            let p = big(&ua[i]) * big(bb);
-            let nt = p.bits() as usize > B1.max(B2);
-            l.record("widening_mul", "a.widening_mul(b)", B1, &args, got, is(V::U(to_limbs(&p, B3))).nt(nt));
-        }
-    });
-}
-macro_rules! wm_grid {
-    ($r:expr; $( ($a:literal, $b:literal) ),* $(,)?) => {$(
-        wm::<$a, {($a + 63) / 64}, $b, {($b + 63) / 64}, {$a + $b}, {($a + $b + 63) / 64}>($r);
-    )*};
-}
-fn widening(r: &Runner) {
-    wm_grid!(r;
-        (0,0),(0,1),(0,64),(0,256),(1,0),(1,1),(1,7),(1,63),(1,64),(1,65),(1,128),(1,256),
-        (7,0),(7,1),(7,7),(7,63),(7,64),(7,65),(7,129),(7,256),
-        (63,1),(63,7),(63,63),(63,64),(63,65),(63,128),(63,256),
-        (64,0),(64,1),(64,7),(64,63),(64,64),(64,65),(64,128),(64,129),(64,256),
-        (65,1),(65,7),(65,63),(65,64),(65,65),(65,128),(65,129),(65,256),
-        (128,1),(128,64),(128,65),(128,128),(128,129),(128,256),
-        (129,7),(129,64),(129,65),(129,128),(129,129),(129,256),
-        (256,0),(256,1),(256,7),(256,64),(256,65),(256,128),(256,129),(256,256));
-}
-
-/// derived universe n = q*d + r + delta
-fn derived_div(bits: usize, base: &[Limbs]) -> Vec<(Limbs, Limbs)> {
-    let m = pow2(bits);
-    let mut out = vec![];
-    for q in base {
-        let bq = big(q);
-        for d in base {
-            let bd = big(d);
-            if bd.is_zero() {
-                continue;
-            }
-            let qd = &bq * &bd;
-            if qd >= m {
-                continue;
-            }
-            let rs = [BigUint::zero(), BigUint::one(), &bd - 1u32];
-            for rr in rs.iter() {
-                if rr >= &bd {
-                    continue;
-                }
-                for delta in [-1i32, 0, 1] {
-                    let n = &qd + rr;
-                    let n = if delta < 0 {
-                        if n.is_zero() {
-                            continue;
-                        }
-                        n - 1u32
-                    } else {
-                        n + delta as u32
-                    };
-                    if n < m {
-                        out.push((to_limbs(&n, bits), d.clone()));
-                    }
-                }
-            }
-        }
-    }
-    out.sort();
-    out.dedup();
-    out
-}
-
-fn c03(r: &Runner) {
-    r.set_rule("S(B)^2 including d = 0; (L/R/P(B))^2 at every edge width (divisors of every limb length, normalised and un-normalised); derived universe n = q*d + r + delta with q, d from the limb alphabet, r in {0, 1, d-1}, delta in {-1,0,1}. non-trivial = n < d, or divisor of >= 3 limbs with un-normalised top limb, or multi-limb divisor with non-zero remainder; the hook counters state how many executions reached each correction branch");
-    for bits in 0..=small_max(r, 8, 10) {
-        let u = small_all(bits);
-        pairs(r, &format!("S({bits})^2"), bits, &u, &u, C03_BIN);
-    }
-    for bits in edge_widths(r) {
-        let (u, d) = bin_universe(r, bits);
-        pairs(r, &format!("({d})^2"), bits, &u, &u, C03_BIN);
-    }
-    // derived universe
-    let ws: &[usize] = if r.is_thorough() { &[64, 65, 127, 128, 129, 191, 192, 193, 255, 256, 257, 320, 384, 512] } else { &[128, 129, 192, 256, 257] };
-    for &bits in ws {
-        let n = nlimbs(bits);
-        let al: &[u64] = if r.is_thorough() {
-            if n <= 3 { A8 } else if n <= 4 { A5 } else { A3 }
-        } else if n <= 2 { A8 } else if n <= 3 { A5 } else { A3 };
-        let base = limb_product(bits, al).unwrap_or_else(|| runs(bits, RUN_YS));
-        let base = if base.len() > 700 { limb_product(bits, A3).unwrap_or_else(|| runs(bits, RUN_YS)) } else { base };
-        let cases = derived_div(bits, &base);
-        r.universe(&format!("n=q*d+r+delta over {} base values", base.len()), bits, cases.len(), |i, l| {
-            let args = [vu(&cases[i].0), vu(&cases[i].1)];
-            l.states(1);
-            for &op in C03_CORE {
-                exec(l, bits, op, &args);
-            }
-        });
-        let gc = golden_div_cases(bits, if r.is_thorough() { 48 } else { 20 });
-        r.universe(&format!("n=q*d+r with q, d assembled from the structureless alphabet G ({} cases)", gc.len()), bits, gc.len(), |i, l| {
-            let args = [vu(&gc[i].0), vu(&gc[i].1)];
-            l.states(1);
-            for &op in C03_CORE {
-                exec(l, bits, op, &args);
-            }
-        });
-    }
-}
-
-/// structureless operands: n = q*d + r with q, d assembled from the G alphabet (exact multiples whose
-/// quotient-digit estimate is off by one exist only for operands without special bit structure)
-fn golden_div_cases(bits: usize, k: usize) -> Vec<(Limbs, Limbs)> {
-    let g = golden(k * 8 + 16);
-    let nl = nlimbs(bits);
-    let m = pow2(bits);
-    let mut out = vec![];
-    for dl in 1..=nl {
-        for dv in 0..k {
-            let mut d: Limbs = (0..dl).map(|i| g[(dv * 3 + i) % g.len()]).collect();
-            if dv % 2 == 0 {
-                d[dl - 1] |= 1 << 63;
-            } else if dv % 3 == 0 {
-                d[dl - 1] >>= 17;
-            }
-            let bd = big(&d);
-            if bd.is_zero() {
-                continue;
-            }
-            for ql in 1..=(nl + 1 - dl).max(1) {
-                for qv in 0..k {
-                    let q: Limbs = (0..ql).map(|i| g[(qv * 5 + i + 7) % g.len()]).collect();
-                    let bq = big(&q);
-                    for rr in [BigUint::zero(), BigUint::one(), &bd - 1u32] {
-                        if rr >= bd {
-                            continue;
-                        }
-                        let n = &bq * &bd + rr;
-                        if n < m {
-                            out.push((to_limbs(&n, bits), to_limbs(&bd, bits)));
-                        }
-                    }
-                }
-            }
-        }
-    }
-    out.sort();
-    out.dedup();
-    out
-}
-
-fn pprime(bits: usize) -> Vec<Limbs> {
-    // P'(B) = {0,1,2,3, 2^(B/2)+-1, 2^(B-1)+-1, 2^B-2, 2^B-1}
-    let m = pow2(bits);
-    let mut v: Vec<BigUint> = vec![0u32.into(), 1u32.into(), 2u32.into(), 3u32.into()];
-    for k in [bits / 2, bits.saturating_sub(1)] {
-        v.push(pow2(k) + 1u32);
-        v.push(pow2(k));
-        if k > 0 {
-            v.push(pow2(k) - 1u32);
-        }
-    }
-    if bits > 1 {
-        v.push(&m - 2u32);
-    }
-    if bits > 0 {
-        v.push(&m - 1u32);
-    }
-    let mut out: Vec<Limbs> = v.into_iter().filter(|x| x < &m).map(|x| to_limbs(&x, bits)).collect();
-    out.sort();
-    out.dedup();
-    out
-}
-
-fn c10(r: &Runner) {
-    r.set_rule("S(B)^3 = all triples of all values for B <= Smax (moduli include 0, 1, 2, 2^k, 2^B-1 automatically); at wide widths all triples over (limb alphabet product + P'(B)); inv_mod / reduce_mod on all pairs. non-trivial = an operand is >= the modulus or the intermediate sum/product overflows BITS, or the modulus is 0");
-    let smax = small_max(r, 5, 6);
-    for bits in 0..=smax {
-        let u = small_all(bits);
-        triples(r, &format!("S({bits})^3"), bits, &u, &u, &u, &[Op::add_mod, Op::mul_mod, Op::pow_mod]);
-    }
-    if r.is_thorough() {
-        for bits in [7usize, 8] {
-            let u = small_all(bits);
-            triples(r, &format!("S({bits})^3"), bits, &u, &u, &u, &[Op::add_mod, Op::mul_mod, Op::pow_mod]);
-        }
-    }
-    for bits in 0..=small_max(r, 8, 10) {
-        let u = small_all(bits);
-        pairs(r, &format!("S({bits})^2"), bits, &u, &u, &[Op::reduce_mod, Op::inv_mod]);
-    }
-    let ws: Vec<usize> = if r.is_thorough() { vec![63, 64, 65, 127, 128, 129, 191, 192, 193, 255, 256, 257, 320, 512] } else { vec![64, 65, 128, 129, 192, 256, 257] };
-    for bits in ws {
-        let n = nlimbs(bits);
-        let al: &[u64] = if n <= 1 { A8 } else if n <= 2 { A5 } else if n <= 4 { A3 } else { &[0, u64::MAX] };
-        let al: &[u64] = if !r.is_thorough() && n == 2 { A4 } else if !r.is_thorough() && n >= 4 { &[0, u64::MAX] } else { al };
-        let mut u = limb_product(bits, al).unwrap();
-        u.extend(pprime(bits));
-        u.sort_by(|a, b| a.iter().rev().cmp(b.iter().rev()));
-        u.dedup();
-        triples(r, &format!("(L({bits};|A|={})+P')^3", al.len()), bits, &u, &u, &u, &[Op::add_mod, Op::mul_mod, Op::pow_mod]);
-        let (u2, d2) = bin_universe(r, bits);
-        pairs(r, &format!("({d2})^2"), bits, &u2, &u2, &[Op::reduce_mod, Op::inv_mod]);
-    }
-}
-
-fn c13(r: &Runner) {
-    r.set_rule("S(B)^2 for (base, exponent) and (value, base), B <= 8 (including widths 1..3 where 2 and 10 do not fit); (value, degree) for every value of S(B), B <= 12 (16 thorough), and every degree 1..B+2; wide: values b^k + delta (delta in {-1,0,1}) for bases b in a fixed list, as log arguments with bases b-1,b,b+1, as root arguments with degrees k-1,k,k+1, and (b,k),(b,k+1) as pow arguments; exponents also from P(B). non-trivial = result > 0 (log), root > 1 with degree >= 2, overflow or exponent >= 2 (pow)");
-    let pw = [Op::pow, Op::wrapping_pow, Op::overflowing_pow, Op::checked_pow, Op::saturating_pow];
-    let lg = [Op::log, Op::checked_log];
-    let lg1 = [Op::log2, Op::log10, Op::checked_log2, Op::checked_log10];
-    for bits in 0..=8usize {
-        let u = small_all(bits);
-        pairs(r, &format!("S({bits})^2 pow"), bits, &u, &u, &pw);
-        pairs(r, &format!("S({bits})^2 log"), bits, &u, &u, &lg);
-    }
-    let rmax = small_max(r, 12, 16);
-    for bits in (0..=12usize).chain([16]) {
-        if bits > rmax {
-            continue;
-        }
-        let u = small_all(bits);
-        unary(r, &format!("S({bits}) log2/log10"), bits, &u, &lg1);
-        let degs: Vec<usize> = (0..=bits + 2).collect();
-        r.universe(&format!("S({bits}) x degree 0..{}", bits + 2), bits, u.len(), |i, l| {
-            for &d in &degs {
-                let args = [vu(&u[i]), V::n(d)];
-                l.states(1);
-                exec(l, bits, Op::root, &args);
-            }
-        });
-    }
-    let mut ws = edge_widths(r);
-    if !ws.contains(&1024) {
-        ws.push(1024);
-    }
-    for bits in ws {
-        let m = pow2(bits);
-        let mut bases: Vec<BigUint> = [2u64, 3, 5, 7, 10, 255, 256, (1 << 32) - 1, 1 << 32, (1 << 32) + 1, u64::MAX].iter().map(|x| BigUint::from(*x)).collect();
-        bases.push(pow2(bits / 2) - 1u32);
-        bases.push(pow2(bits / 2) + 1u32);
-        bases.retain(|b| b < &m && b >= &BigUint::from(2u32));
-        bases.sort();
-        bases.dedup();
-        // (value, base) for log; (value, degree) for root; (base, exp) for pow
-        let mut logc: Vec<[V; 2]> = vec![];
-        let mut rootc: Vec<[V; 2]> = vec![];
-        let mut powc: Vec<[V; 2]> = vec![];
-        for b in &bases {
-            let mut p = BigUint::one();
-            let mut k = 0usize;
-            loop {
-                // p = b^k < m
-                for delta in [-1i32, 0, 1] {
-                    let v = if delta < 0 { if p.is_zero() { continue } else { &p - 1u32 } } else { &p + delta as u32 };
-                    if v >= m {
-                        continue;
-                    }
-                    for bb in [b - 1u32, b.clone(), b + 1u32] {
-                        if bb < m {
-                            logc.push([u(&v, bits), u(&bb, bits)]);
-                        }
-                    }
-                    for d in [k.saturating_sub(1), k, k + 1] {
-                        if d >= 1 {
-                            rootc.push([u(&v, bits), V::n(d)]);
-                        }
-                    }
-                }
-                for kk in [k, k + 1] {
-                    powc.push([u(b, bits), u(&BigUint::from(kk), bits.max(1)).clone()]);
-                }
-                p *= b;
-                k += 1;
-                if p >= m {
-                    break;
-                }
-            }
-        }
-        // pow arguments must have width `bits`: rebuild exponent limbs at that width
-        let powc: Vec<[V; 2]> = powc
-            .into_iter()
-            .filter_map(|[a, e]| {
-                let ev = big(e.limbs());
-                if ev < m { Some([a, u(&ev, bits)]) } else { None }
-            })
-            .collect();
-        let mut powc = powc;
-        for base in [BigUint::zero(), BigUint::one(), BigUint::from(2u32), BigUint::from(3u32), &m - 1u32, &m - 2u32, pow2(bits / 2), pow2(bits - 1)] {
-            if base >= m {
-                continue;
-            }
-            for e in pow2_nbhd(bits) {
-                powc.push([u(&base, bits), vu(&e)]);
-            }
-        }
-        for (name, cases, ops) in [("log b^k+d", &mut logc, &lg[..]), ("root b^k+d", &mut rootc, &[Op::root][..]), ("pow", &mut powc, &pw[..])] {
-            cases.sort();
-            cases.dedup();
-            let cases = &*cases;
-            r.universe(&format!("{name} ({} cases)", cases.len()), bits, cases.len(), |i, l| {
-                l.states(1);
-                for &op in ops {
-                    exec(l, bits, op, &cases[i][..]);
-                }
-            });
-        }
-        let (pu, _) = (pow2_nbhd(bits), ());
-        unary(r, &format!("P({bits}) log2/log10"), bits, &pu, &lg1);
-    }
-}
-
-fn main() {
-    let (prop, tier, seed, replay_path) = args_env();
-    if let Some(p) = replay_path {
-        std::process::exit(replay(&p));
-    }
-    let r = Runner::new("mc_arith", &prop, &tier, seed);
-    r.assume("x86_64, 64-bit usize, harness profile = release + debug-assertions + overflow-checks (the semantics of the cargo test profile)");
-    r.assume("reference model: num-bigint 0.4 BigUint arithmetic; values cross the boundary only as raw limbs");
-    r.assume("at >= 2 limbs the limb values are drawn from the stated alphabets (all coincidences of extreme limbs), not from all 2^64 values");
-    match prop.as_str() {
-        "C01" => c01(&r),
-        "C02" => c02(&r),
-        "C03" => c03(&r),
-        "C10" => c10(&r),
-        "C13" => c13(&r),
-        _ => {
-            eprintln!("mc_arith: unknown property '{prop}' (C01 C02 C03 C10 C13)");
-            std::process::exit(2);
-        }
-    }
-    std::process::exit(r.finish());
-}
+const SWEEP: bool = false;
+include!("../groups/arith.rs");
